@@ -6,4 +6,5 @@ pub mod stubs;
 pub mod c01_lwe;
 pub mod c02;
 pub mod c19;
+pub mod c18_core;
 pub mod generated;
